@@ -800,14 +800,20 @@ def _transform(node, callback):
 def _finalize_parse_info(text, nodes, pos, fullparse):
     line_numbers, column_numbers = _map_index_to_line_and_column(text)
 
+    def position(index):
+        # An object that consumed nothing may start at the end of the input and
+        # ends before it starts: such offsets have no line and column.
+        if 0 <= index < len(text):
+            return _Position(index, line_numbers[index], column_numbers[index])
+        return _Position(index, None, None)
+
     for node in visit(nodes):
         pos_info = node._metadata.position_info
         if pos_info:
             start, end = pos_info
-            end -= 1
             node._metadata.position_info = _PositionInfo(
-                start=_Position(start, line_numbers[start], column_numbers[start]),
-                end=_Position(end, line_numbers[end], column_numbers[end]),
+                start=position(start),
+                end=position(end - 1),
             )
 
     if fullparse and pos < len(text):
